@@ -753,7 +753,13 @@ def classify(s, res=None):
         return 'periodic-rounded-ghost-knots-out-of-range'
     if _straddle(s):
         return 'knots-straddling-tolerance-window'
-    # (`periodic-insert-small-basis`, `periodic-small-basis-geometry`: fixed with periodic insert_knot)
+    # periodic bases with n < p+k functions (periodic insert_knot defect of C04/C08).  The labels only take
+    # effect while known_findings.json lists them for C12: once the periodic insert_knot fix is in the
+    # tree under test these inputs pass the oracle and nothing is classified.
+    small = any(_small(o['bases'][d]) for o in (s['o1'], s['o2']) for d in req)
+    if small:
+        differ = any(s['o1']['bases'][d]['periodic'] != s['o2']['bases'][d]['periodic'] for d in req)
+        return 'periodic-insert-small-basis' if differ else 'periodic-small-basis-geometry'
     if 'ZeroDivisionError' in txt and any(b['order'] == 1 for o in (s['o1'], s['o2']) for b in o['bases']):
         return 'order1-direction-greville-zerodivision'
     if pd == 1 and max(_dim(s['o1']), _dim(s['o2'])) == 1 and not (s['o1']['rational'] or s['o2']['rational']) \
